@@ -322,6 +322,55 @@ PROPERTIES = {
 }
 
 
+# ------------------------------------------------------------------------------------------------
+# claim texts brought up to date with the obligations added later (fragment of the older text -> its replacement)
+# ------------------------------------------------------------------------------------------------
+CLAIM_UPDATES = {
+    "C01": ("The derivative relation slope = 2 Re<grad, D> for the non-linear total energy is NOT proved (only evaluated natively on replay).",
+            "For general diagonal fillings the two analytic components of the gradient ((1-P) g and W^H g = wk U^1/2 Q([Ht, F])), the Sylvester equation solved by Q (eigh contract), "
+            "get_grad_occ = wk (1 - O Y Y^H) H Y and the reads-frame of H_precompute (it reads scf.atoms / xc / xc_type / xc_params only: no stale state of the SCF object) are proved. "
+            "The derivative relation slope = 2 Re<grad, D> for the non-linear total energy itself is NOT proved: bounded native stand-ins (labelled bounded) per functional family "
+            "(LDA, PBE, PBEsol, SCAN / TPSS through the Libxc bridge), external potential (GTH, Coulomb, long-range, harmonic, Ge), spin treatment, smeared fillings with weighted k-points, "
+            "occupied- and empty-band minimisation at fixed Hamiltonian, and the keyword-less call. Open findings: on coarse EVEN FFT samplings the relation fails (KNOWN_FINDINGS.json)."),
+    "C05": ("GGA gradient correction (real Veff on even grids), tau term, eigenvalue ordering, Ritz bound and DOS are not covered here.",
+            "Hermiticity is proved (a) under the pre-condition that the real-space image of the Hartree field is real and (b) for an ARBITRARY complex reciprocal-space field - (b) is refuted on the "
+            "pinned tree (open finding: coarse even samplings). get_psi / get_epsilon: orthonormal rotation diagonalising the subspace Hamiltonian, eigenvalues invariant under invertible mixing "
+            "(eigh / similarity / interlacing lemmas assumed). get_dos: k-weighted sum of unit-area Gaussians over every state of every k-point on an energy window that holds every state with a "
+            "margin of five widths (engine Z). Bounded: Hermiticity with a GGA on the default even grid; ascending unoccupied eigenvalues of the subspace Hamiltonian and the Ritz bound."),
+    "C09": ("The Chachiyo and finite-temperature closed forms are not written as spec functions (bounded comparison only).",
+            "The Chachiyo and finite-temperature closed forms are not written as spec functions (bounded comparison only). The name tables (Libxc numbers, shorthands, aliases) select the "
+            "functional whose docstring claims that Libxc entry, and the claims agree with the Libxc table shipped with PySCF (exhaustive over the finite tables)."),
+    "C11": ("(non-negative, quadratic) - for symbolic grid and cell.",
+            "(non-negative, quadratic) - for symbolic grid and cell, with Omega > 0 taken as given; that the Atoms.a setter establishes Omega = |det a| for right- and left-handed "
+            "lattice matrices (and Ecoul >= 0, independent of the order of the lattice vectors) is a bounded native stand-in."),
+    "C12": ("Coulomb / harmonic potentials (see evidence for the clauses present in this run).",
+            "Coulomb / long-range Coulomb / harmonic potentials as Fourier transforms of their real-space forms; init_gth_nonloc: prj2beta is a bijection onto the columns and the column it "
+            "addresses for (atom, l, m, i) is (-i)^l Ylm_real(l, m) p_i^l(|G + k|) Sf(atom) for every projector structure with lmax <= 3 and up to three projectors per channel "
+            "(symbolic execution, 3 atoms of 2 species, 2 k-points)."),
+    "C13": ("integer/fractional filling loops: see evidence for which clauses are proved with loop invariants and which are bounded.",
+            "fill(): integer, fractional and magnetisation branches with loop invariants stated over ROLES read off the loop's AST (any Nelec, spin, bands, smearing): sum of fillings = Nelec, "
+            "0 <= f <= 2/Nspin, up - down = spin / magnetisation, and the STORED spin agrees with the fillings; occ.f = explicit array: Nelec, charge, Nstate, Nspin, spin follow from the array; "
+            "smear(): fillings = (2/Nspin) fermi(epsilon, get_Efermi(self, epsilon), smearing), hence (callee contracts) k-weighted sum = Nelec and 0 <= f <= 2/Nspin."),
+    "C15": ("time-reversal weight bookkeeping for symbolic Nk and segment lengths (see evidence for what is bounded).",
+            "time-reversal weight bookkeeping for symbolic Nk and segment lengths. Bounded (the set of paths is infinite): special points visited in order, equidistant collinear points, "
+            "k-axis with zero length at jumps for stated families of paths (2-8 special points, one or two jumps at different positions) x Nk; trs() over meshes up to 4x4x4 with shifts."),
+    "C16": ("The one-electron clause (E_H + E_xc + E_sic = 0) is refuted on the pinned tree: the code ADDS the self-interaction energy (known finding).",
+            "The one-electron clause (E_H + E_xc + E_sic = 0) is refuted on the pinned tree: the code ADDS the self-interaction energy (known finding); get_FLO is not orthonormal for "
+            "degenerate overlaps (known finding). Bounded: Fermi orbitals are the normalised combinations sum_j R[i, j] psi_j of the occupied orbitals."),
+    "C17": ("HDF5 and the 'continues the SCF identically' clause are outside (bounded stand-in only).",
+            "TRAJ round trips (two frames, with FODs). HDF5: a per-k-point list of N arrays of different shapes is restored element by element in order for EVERY N (VC generated from "
+            "the ASTs of write_hdf5 / read_hdf5 over a map model of an h5py group). 'Restores energies bit for bit and continues the SCF identically' (JSON, HDF5; multi-k, smearing): bounded native stand-ins."),
+    "C20": ("bounded native stand-ins only, labelled bounded.",
+            "bounded native stand-ins only, labelled bounded (separate interpreters under hash seeds / FFT worker counts; NaN poison; two junk patterns incl. integer arrays compared on results, "
+            "whole-object JSON and array members; fresh interpreter vs the same calculation after unrelated earlier ones). The inventory also lists hidden state (S6): module-level containers that "
+            "some function mutates, `global`, memoisation decorators, attributes stored on functions - none on the pinned tree."),
+}
+for _p, (_old, _new) in CLAIM_UPDATES.items():
+    if PROPERTIES[_p]["claim"].count(_old) != 1:
+        raise AssertionError(f"claim fragment of {_p} not found")
+    PROPERTIES[_p]["claim"] = PROPERTIES[_p]["claim"].replace(_old, _new)
+
+
 def load(prop):
     spec = PROPERTIES[prop]
     for m in spec["modules"]:
